@@ -2,12 +2,12 @@
    Client -> server is a theorem (C02_client_request_parses_back): the request parser model, run on
    what the client serialiser model writes, ends Done exactly at the last byte with the message whose
    fields are the effects of the components the request was built from.  Server -> client is a theorem
-   for fixed-length responses (C02_server_response_fields); streamed (chunked) responses are not
-   composed with the response parser's chunk loop (C05_stream_decodes uses an independent reader) and
-   are decided by the live client <-> endpoint correspondence check.  Segmentation
+   for fixed-length responses (C02_server_response_fields) and for streamed responses
+   (C02_stream_response_body: the parser's own chunk loop).  That the real serialisers and parsers are
+   these models is the correspondence check (live client <-> endpoint, captured bytes).  Segmentation
    independence of the parser result is C01; typed header, cookie and media type values are C16-C18. *)
 From Coq Require Import Ascii String List NArith ZArith Arith.
-Require Import Bytes NumParse Restartable ParserModel WireModel WireLemmas RoundTripLemmas.
+Require Import Bytes NumParse Restartable ParserModel WireModel WireLemmas RoundTripLemmas StreamLemmas.
 Import ListNotations.
 
 Theorem C02_request_framing_with_body : forall m host path q cs hs body,
@@ -100,6 +100,21 @@ Theorem C02_server_response_fields :
       /\ m_body (p_msg st) = body.
 Proof. exact server_response_fields. Qed.
 Print Assumptions C02_server_response_fields.
+
+(* Server -> client, streamed responses: for every status code, application headers, Set-Cookie values and
+   every sequence of non-empty chunks, the response parser model (its own chunk loop) run on what
+   ResponseStream writes ends Done exactly at the last byte with the concatenation of the chunks as body. *)
+Theorem C02_stream_response_body :
+  forall typed_other set_cookie code hs cks chunks,
+    (code < 2147483648)%N -> Forall plain_header hs -> Forall (fun ck => cookie_ok set_cookie (fst ck) (snd ck)) cks ->
+    typed_ok typed_other "Transfer-Encoding" chunked ->
+    Forall (fun c => c <> [] /\ (Z.of_nat (length c) <= LONG_MAX)%Z) chunks ->
+    exists st,
+      whole typed_other set_cookie KResponse (render_stream code hs (map fst cks) chunks) = (PDone, st)
+      /\ p_cur st = length (render_stream code hs (map fst cks) chunks)
+      /\ m_body (p_msg st) = concat chunks.
+Proof. exact stream_response_body. Qed.
+Print Assumptions C02_stream_response_body.
 
 (* non-vacuity: a concrete request meets the hypotheses; evaluated with the executable instance *)
 Require Import ParserInst.
